@@ -17,7 +17,8 @@ RULE = (
     "solved with two fixed free-parameter vectors and (generated strata) a generated one. Oracle: exact "
     "rational Gaussian elimination (rank test, parameter count, residual of every original equation). "
     "non-trivial = rank-deficient, zero coefficient column or inconsistent; distinct = distinct matrix "
-    "(enumerated matrices are distinct by construction; generated ones by digest)."
+    "(enumerated matrices are distinct by construction; generated ones by digest). Systems with equal rows are "
+    "also passed with those rows as one shared list object."
 )
 ASSUMPTIONS = [
     "solve() is called on a deep copy of the matrix (it reorders rows in place)",
@@ -59,8 +60,20 @@ def check(case, ctx):
         "zero_column": zero_col,
         "consistent": consistent,
     }
+    reps = [("list of lists", copy.deepcopy(m))]
+    # a system with equal rows is also handed over with those rows being one shared list object ([row] * k), which
+    # is still "a list of lists" (tuple rows are not tried: the statement does not say they are accepted)
+    if len(set(map(tuple, rows))) < len(rows):
+        shared = {}
+        reps.append(("equal rows given as the same list object", [shared.setdefault(tuple(r), list(r)) for r in m]))
+    for rep_name, mm in reps:
+        facts["representation"] = rep_name
+        _solve_and_check(G, mm, rows, neq, nun, rA, rAb, consistent, ctype, conv, params, facts)
+
+
+def _solve_and_check(G, mm, rows, neq, nun, rA, rAb, consistent, ctype, conv, params, facts):
     try:
-        sol = G.solve(copy.deepcopy(m))
+        sol = G.solve(mm)
         truth = bool(sol)
     except Exception as e:
         raise Fail("solve raises %s" % type(e).__name__, {"error": repr(e)}, facts)
